@@ -258,12 +258,15 @@ def expand(toks, macros, budget=1024, want_steps=False, max_len=None):
     cur = list(toks)
     steps = []
     n = 0
+    expand.tied = False
     while True:
         b = best(candidates(cur, macros))
         if not b:
             return cur, n, False, steps
         if n >= budget:
             return cur, n, True, steps
+        if len(set(x[3] for x in b)) > 1:
+            expand.tied = True     # two DIFFERENT definitions tie on priority, start and length: which one is taken is not prescribed
         c = min(b, key=lambda x: x[3])
         m = next(mm for mm in macros if mm["order"] == c[3])
         cur = instantiate(cur, m, c[1], c[2], c[4], n)
@@ -271,6 +274,9 @@ def expand(toks, macros, budget=1024, want_steps=False, max_len=None):
             raise OverflowError("stream grows beyond %d tokens" % max_len)
         steps.append((c[3], c[1], c[2]))
         n += 1
+
+
+expand.tied = False
 
 
 def strip(toks):
